@@ -246,6 +246,8 @@ func faultErr(f hx.Fault) error {
 			"cause": errors.New("disk \"sda1\" said: C:\\temp\\new\tlog"),
 			"label": extLabel("bell\x07 del\x7f unit\x1f nl\n"),
 			"where": extPlace{"r\u00e9gion \U000e0001 \"east\""},
+			// (times an application uses for "never" and "always")
+			"until": time.Date(10000, 1, 1, 0, 0, 0, 0, time.UTC), "since": time.Date(-1, 12, 31, 23, 59, 59, 0, time.UTC), "at": time.Date(2021, 3, 4, 5, 6, 7, 8, time.FixedZone("", 7200)),
 		}}
 	case "ext":
 		if f.Same {
